@@ -307,8 +307,14 @@ class AbstractFormat:
         # two like-sign corners give the maximum and the two cross corners the
         # minimum -- `max` on the latter would claim the *tighter* of the two
         # and miss the product it names: `[-1,1] * [-2,1]` reaches -2
-        pos_bound = max(self.pos_bound * other.pos_bound, self.neg_bound * other.neg_bound)
-        neg_bound = min(self.pos_bound * other.neg_bound, self.neg_bound * other.pos_bound)
+        def corner(a, b):
+            # a zero bound times an unbounded one is zero, not `0 * inf = NaN`
+            if a == 0 or b == 0:
+                return RealFloat.from_int(0)
+            return a * b
+
+        pos_bound = max(corner(self.pos_bound, other.pos_bound), corner(self.neg_bound, other.neg_bound))
+        neg_bound = min(corner(self.pos_bound, other.neg_bound), corner(self.neg_bound, other.pos_bound))
 
         # special values: 0 is representable everywhere, so `inf * 0 = NaN` is
         # reachable whenever either operand has an infinity -- the NaN result is
